@@ -22,17 +22,30 @@ structure View where
   RG : Nat → Key → Prop
   RW : Nat → Nat → Prop
   D : Nat → Prop
+  /-- ghost: stale reverse-only monitor entries left by a `demonitor*` that had fetched no `Arc` -/
+  SG : Nat → Key → Prop
+  SW : Nat → Nat → Prop
 
-def stView (st : State) (acc : Key → List Nat) : View where
-  M := fun k x => x ∈ membersOf st k ∨ x ∈ acc k
+/-- what the view needs besides the state: the accepted sets of the lock table and the stale ghosts -/
+structure Aux where
+  acc : Key → List Nat
+  sg : Nat → Key → Prop
+  sw : Nat → Nat → Prop
+
+def stView (st : State) (aux : Aux) : View where
+  M := fun k x => x ∈ membersOf st k ∨ x ∈ aux.acc k
   L := fun k x => x ∈ listenersOf st k
   W := fun s x => x ∈ worldOf st s
   RM := fun x k => k ∈ relMem st x
   RG := fun x k => k ∈ relGmon st x
   RW := fun x s => s ∈ relWmon st x
   D := fun x => x ∈ st.dead
+  SG := aux.sg
+  SW := aux.sw
 
-def gView (g : G) : View := stView g.st (accOf g)
+def auxOf (g : G) : Aux := ⟨accOf g, fun x k => (x, k) ∈ g.staleG, fun x s => (x, s) ∈ g.staleW⟩
+
+def gView (g : G) : View := stView g.st (auxOf g)
 
 structure VTrans (v v' : View) (e : Eff) : Prop where
   m : ∀ k x, v'.M k x ↔ (v.M k x ∧ ¬ e.delM k x) ∨ e.addM k x
@@ -42,6 +55,8 @@ structure VTrans (v v' : View) (e : Eff) : Prop where
   w : ∀ s x, v'.W s x ↔ (v.W s x ∧ ¬ e.delW s x) ∨ e.addW s x
   rw : ∀ x s, v'.RW x s ↔ (v.RW x s ∧ ¬ e.delRW x s) ∨ e.addW s x
   d : ∀ x, v.D x → v'.D x
+  sg : ∀ x k, v.SG x k → v'.SG x k
+  sw : ∀ x s, v.SW x s → v'.SW x s
 
 /-- the region is well-behaved towards actor `a` -/
 structure WBV (a : Nat) (v : View) (e : Eff) : Prop where
@@ -52,16 +67,16 @@ structure WBV (a : Nat) (v : View) (e : Eff) : Prop where
   dl : ∀ k, e.delL k a ↔ e.delRG a k
   dw : ∀ s, e.delW s a ↔ e.delRW a s
 
-theorem wbv_of_wb {a : Nat} {st : State} {e : Eff} (acc : Key → List Nat) (h : WB a st e) : WBV a (stView st acc) e :=
+theorem wbv_of_wb {a : Nat} {st : State} {e : Eff} (aux : Aux) (h : WB a st e) : WBV a (stView st aux) e :=
   ⟨h.am, h.al, h.aw, h.dm, h.dl, h.dw⟩
 
 /-- a state-level effect lifts to the view when the accepted sets do not change and nothing it removes
 from a forward entry is an accepted-but-uncommitted actor (it cannot be: that entry is held) -/
-theorem vtrans_lift {st st' : State} {e : Eff} (acc : Key → List Nat) (t : Trans st st' e)
-    (hdel : ∀ k x, e.delM k x → x ∉ acc k) : VTrans (stView st acc) (stView st' acc) e := by
-  refine ⟨?_, t.rm, t.l, t.rg, t.w, t.rw, t.d⟩
+theorem vtrans_lift {st st' : State} {e : Eff} (aux : Aux) (t : Trans st st' e)
+    (hdel : ∀ k x, e.delM k x → x ∉ aux.acc k) : VTrans (stView st aux) (stView st' aux) e := by
+  refine ⟨?_, t.rm, t.l, t.rg, t.w, t.rw, t.d, fun _ _ h => h, fun _ _ h => h⟩
   intro k x
-  show (x ∈ membersOf st' k ∨ x ∈ acc k) ↔ ((x ∈ membersOf st k ∨ x ∈ acc k) ∧ ¬ e.delM k x) ∨ e.addM k x
+  show (x ∈ membersOf st' k ∨ x ∈ aux.acc k) ↔ ((x ∈ membersOf st k ∨ x ∈ aux.acc k) ∧ ¬ e.delM k x) ∨ e.addM k x
   rw [t.m]
   constructor
   · rintro ((⟨h1, h2⟩ | h1) | h1)
@@ -99,10 +114,11 @@ def drainedM : Phase → Prop
 
 /-- the invariant about one actor, by the phase of its exit -/
 structure VInv (a : Nat) (v : View) (ph : Phase) : Prop where
-  /-- reverse ⊆ forward: never weakened -/
+  /-- reverse ⊆ forward: never weakened for memberships; a monitor entry without its forward entry is a
+  stale one left by a `demonitor*` that had fetched no `Arc` -/
   rM : ∀ k, v.RM a k → v.M k a
-  rL : ∀ k, v.RG a k → v.L k a
-  rW : ∀ s, v.RW a s → v.W s a
+  rL : ∀ k, v.RG a k → v.L k a ∨ v.SG a k
+  rW : ∀ s, v.RW a s → v.W s a ∨ v.SW a s
   /-- `Stopping` is published from `mark` on -/
   dead : ph ≠ .live → v.D a
   /-- forward ⊆ reverse, weakened by the phase of the actor's OWN exit only -/
@@ -113,7 +129,8 @@ structure VInv (a : Nat) (v : View) (ph : Phase) : Prop where
   drG : drainedG ph → (∀ k, ¬ v.RG a k) ∧ (∀ s, ¬ v.RW a s)
   drM : drainedM ph → ∀ k, ¬ v.RM a k
   /-- an actor that was already stopping when the run began (no exit to step) owns nothing -/
-  old : ph = .live → v.D a → (∀ k, ¬ v.M k a) ∧ (∀ k, ¬ v.L k a) ∧ (∀ s, ¬ v.W s a)
+  old : ph = .live → v.D a → ((∀ k, ¬ v.M k a) ∧ (∀ k, ¬ v.L k a) ∧ (∀ s, ¬ v.W s a)) ∧
+    ((∀ k, ¬ v.RM a k) ∧ (∀ k, ¬ v.RG a k) ∧ (∀ s, ¬ v.RW a s))
 
 /-- what a region that is not part of `a`'s own exit guarantees about `a` -/
 structure EnvV (a : Nat) (v v' : View) : Prop where
@@ -123,8 +140,8 @@ structure EnvV (a : Nat) (v v' : View) : Prop where
   fL : (∀ k, v.L k a → v.RG a k) → ∀ k, v'.L k a → v'.RG a k
   fW : (∀ s, v.W s a → v.RW a s) → ∀ s, v'.W s a → v'.RW a s
   rM : (∀ k, v.RM a k → v.M k a) → ∀ k, v'.RM a k → v'.M k a
-  rL : (∀ k, v.RG a k → v.L k a) → ∀ k, v'.RG a k → v'.L k a
-  rW : (∀ s, v.RW a s → v.W s a) → ∀ s, v'.RW a s → v'.W s a
+  rL : (∀ k, v.RG a k → v.L k a ∨ v.SG a k) → ∀ k, v'.RG a k → v'.L k a ∨ v'.SG a k
+  rW : (∀ s, v.RW a s → v.W s a ∨ v.SW a s) → ∀ s, v'.RW a s → v'.W s a ∨ v'.SW a s
   sM : v.D a → ∀ k, v'.M k a → v.M k a
   sL : v.D a → ∀ k, v'.L k a → v.L k a
   sW : v.D a → ∀ s, v'.W s a → v.W s a
@@ -158,13 +175,17 @@ theorem envV_of_vtrans {a : Nat} {v v' : View} {e : Eff} (t : VTrans v v' e) (wb
   · intro h k hk
     rw [t.rg] at hk; rw [t.l]
     rcases hk with ⟨x, y⟩ | x
-    · exact Or.inl ⟨h k x, fun z => y ((wb.dl k).mp z)⟩
-    · exact Or.inr x
+    · rcases h k x with z | z
+      · exact Or.inl (Or.inl ⟨z, fun w => y ((wb.dl k).mp w)⟩)
+      · exact Or.inr (t.sg a k z)
+    · exact Or.inl (Or.inr x)
   · intro h s hs
     rw [t.rw] at hs; rw [t.w]
     rcases hs with ⟨x, y⟩ | x
-    · exact Or.inl ⟨h s x, fun z => y ((wb.dw s).mp z)⟩
-    · exact Or.inr x
+    · rcases h s x with z | z
+      · exact Or.inl (Or.inl ⟨z, fun w => y ((wb.dw s).mp w)⟩)
+      · exact Or.inr (t.sw a s z)
+    · exact Or.inl (Or.inr x)
   · intro hd k hk; rw [t.m] at hk
     rcases hk with ⟨h1, _⟩ | h1
     · exact h1
@@ -227,7 +248,8 @@ theorem vinv_env {a : Nat} {v v' : View} {ph : Phase} (e : EnvV a v v') (h : VIn
     exact fun k hk => h.drM hp k (e.sRM hd k hk)
   · intro hp hd'
     have hd := e.db hd'
-    obtain ⟨c1, c2, c3⟩ := h.old hp hd
-    exact ⟨fun k hk => c1 k (e.sM hd k hk), fun k hk => c2 k (e.sL hd k hk), fun s hs => c3 s (e.sW hd s hs)⟩
+    obtain ⟨⟨c1, c2, c3⟩, d1, d2, d3⟩ := h.old hp hd
+    exact ⟨⟨fun k hk => c1 k (e.sM hd k hk), fun k hk => c2 k (e.sL hd k hk), fun s hs => c3 s (e.sW hd s hs)⟩,
+      fun k hk => d1 k (e.sRM hd k hk), fun k hk => d2 k (e.sRG hd k hk), fun s hs => d3 s (e.sRW hd s hs)⟩
 
 end Pg.Conc
